@@ -448,3 +448,71 @@ class AssociationV(_NativeOnly):
 
 
 CONTRACTS = CONTRACTS + [AssociationV]
+
+
+class OneOfVerdict(_NativeOnly):
+    """The 'one of' rule: a dictionary is accepted exactly when at least one member of the group is
+    provided -- a value is provided when it is not None, whatever its truth value (0, 0.0, False and
+    the empty string are values)."""
+    target = "geoh5py/ui_json/validation.py::InputValidation.validate_data"
+    variant = "one-of-verdict"
+    bounded_scope = "two and three parameters under one 'one_of' rule; values in {None, 0, 0.0, False, '', 1.5, 'x', True}^n (exhaustive); through InputValidation.validate_data and through the data setter of an InputFile"
+
+    VALUES = (None, 0, 0.0, False, "", 1.5, "x", True)
+
+    def native_cases(self, tier, rng):
+        import itertools
+
+        for n in (2, 3):
+            for combo in itertools.product(range(len(self.VALUES)), repeat=n):
+                if n == 3 and sum(1 for c in combo if c != 0) > 1 and tier == "quick" and hash(combo) % 4:
+                    continue
+                yield {"values": list(combo), "through": "validator"}
+        for combo in itertools.product(range(len(self.VALUES)), repeat=2):
+            yield {"values": list(combo), "through": "input-file"}
+
+    def native_check(self, case):
+        from geoh5py.shared.exceptions import AtLeastOneValidationError, BaseValidationError
+        from geoh5py.ui_json.validation import InputValidation
+
+        vals = [self.VALUES[i] for i in case["values"]]
+        names = [f"p{i}" for i in range(len(vals))]
+        want = any(v is not None for v in vals)
+        if case["through"] == "validator":
+            rules = {n: {"types": [int, float, bool, str, type(None)], "one_of": "the group"} for n in names}
+            v = InputValidation(validations=rules)
+            try:
+                v.validate_data(dict(zip(names, vals)))
+                got = True
+            except AtLeastOneValidationError:
+                got = False
+            except BaseValidationError as exc:
+                return f"{dict(zip(names, vals))} under a 'one_of' rule: unexpected {type(exc).__name__}: {exc} ({case})"
+        else:
+            from copy import deepcopy
+
+            from geoh5py.ui_json import InputFile, templates
+            from geoh5py.ui_json.constants import default_ui_json
+            from geoh5py.workspace import Workspace
+
+            with Workspace() as ws:
+                ui = deepcopy(default_ui_json)
+                ui["geoh5"] = ws
+                for n in names:
+                    ui[n] = templates.string_parameter(label=n, value="start", optional="enabled")
+                ifile = InputFile(ui_json=ui, validations={n: {"types": [int, float, bool, str, type(None)], "one_of": "the group"} for n in names})
+                data = dict(ifile.data)
+                data.update(dict(zip(names, vals)))
+                try:
+                    ifile.data = data
+                    got = True
+                except AtLeastOneValidationError:
+                    got = False
+                except BaseValidationError as exc:
+                    return None  # refused for another rule of the form (types of a string form): not this rule's verdict
+        if got != want:
+            return f"{dict(zip(names, vals))} under a 'one_of' rule: {'accepted' if got else 'refused'}, expected {'accepted' if want else 'refused'} (a value is provided when it is not None) ({case})"
+        return None
+
+
+CONTRACTS = CONTRACTS + [OneOfVerdict]
